@@ -1439,9 +1439,6 @@ func selectorLocal(fn *ssa.Function) (bool, string) {
 			if ascendingCounter(phi) || isCounterPhi(phi) {
 				return false
 			}
-			if _, isSlice := phi.Type().Underlying().(*types.Slice); isSlice {
-				return false
-			}
 			ok, why = false, "a branch inside the loop over the incoming node-set depends on state carried over from earlier context nodes (variable "+phi.Comment+"): which nodes are collected then depends on the order of the incoming set, which is descending after a reverse axis"
 			return false
 		})
